@@ -628,6 +628,17 @@ def run_lyot_case(case):
         out0 = np.asarray(occ.forward(hp.Wavefront(hp.Field(E.copy(), pg), wl)).electric_field)
         if np.abs(out0).max() > TOL * scale:
             bad.append(('occulted opaque', 'OccultedLyotCoronagraph with a fully opaque mask returns %.3g' % np.abs(out0).max()))
+        # the same two identities for backward (the stop is an Apodizer: backward multiplies by its conjugate)
+        wfb = hp.Wavefront(hp.Field(E.copy(), pg), wl)
+        outb = np.asarray(lyot.backward(wfb).electric_field)
+        wantb = E if stop is None else E * stop.conj()
+        if np.abs(outb - wantb).max() > TOL * scale:
+            bad.append(('lyot backward-transparent', 'LyotCoronagraph.backward with a fully transmissive mask differs from conj(stop)*E by %.3g (%dx%d pupil, %s stop)' % (np.abs(outb - wantb).max(), nx, ny, case['stop_kind'])))
+        if not np.array_equal(np.asarray(wfb.electric_field), E):
+            bad.append(('lyot input-modified', 'LyotCoronagraph.backward changed its input'))
+        outb0 = np.asarray(occ.backward(hp.Wavefront(hp.Field(E.copy(), pg), wl)).electric_field)
+        if np.abs(outb0).max() > TOL * scale:
+            bad.append(('occulted backward-opaque', 'OccultedLyotCoronagraph.backward with a fully opaque mask returns %.3g' % np.abs(outb0).max()))
     except Exception as e:  # noqa
         bad.append(('lyot raises', 'Lyot coronagraph raised %s: %s' % (type(e).__name__, str(e)[:80])))
         return None, bad
@@ -666,7 +677,37 @@ def run_lyot_case(case):
         return rat_lists(M.real) + ' ' + rat_lists(M.imag)
     lines = ['C09 lyot %s %s %s %s %s' % (cmx(F), cmx(B), cl(mask), '- -' if stop is None else cl(stop), cl(E)),
              'C09 occulted %s %s %s %s' % (cmx(F), cmx(B), cl(mask), cl(E))]
-    return {'lines': lines, 'outs': [o_l, o_o], 'scale': s2}, bad
+    # --- backward on the same stand-ins
+    Y = rng.integers(-16, 17, n) / 8.0 + 1j * rng.integers(-16, 17, n) / 8.0
+    wfy = hp.Wavefront(hp.Field(Y.copy(), pg), wl)
+    b_l = np.asarray(lyot.backward(wfy).electric_field)
+    b_o = np.asarray(occ.backward(hp.Wavefront(hp.Field(Y.copy(), pg), wl)).electric_field)
+    if not np.array_equal(np.asarray(wfy.electric_field), Y):
+        bad.append(('lyot input-modified', 'LyotCoronagraph.backward changed its input'))
+    ys = Y if stop is None else Y * stop.conj()
+    wantb_l = ys - B @ ((F @ ys) * (1 - mask.conj()))
+    wantb_o = B @ (mask.conj() * (F @ Y))
+    s3 = max(1.0, float(np.abs(wantb_l).max()), float(np.abs(wantb_o).max()))
+    if np.abs(b_l - wantb_l).max() > TOL * s3:
+        bad.append(('lyot backward-formula', 'LyotCoronagraph.backward differs from y\' - B((1-conj m) F y\'), y\' = conj(stop)*y, by %.3g' % np.abs(b_l - wantb_l).max()))
+    if np.abs(b_o - wantb_o).max() > TOL * s3:
+        bad.append(('occulted backward-formula', 'OccultedLyotCoronagraph.backward differs from B(conj(m) F y) by %.3g' % np.abs(b_o - wantb_o).max()))
+    lines += ['C09 lyotb %s %s %s %s %s' % (cmx(F), cmx(B), cl(mask), '- -' if stop is None else cl(stop), cl(Y)),
+              'C09 occultedb %s %s %s %s' % (cmx(F), cmx(B), cl(mask), cl(Y))]
+    # --- backward is the adjoint of forward when the propagator's backward is the adjoint of its forward
+    adjoint_pair = bool(rng.random() < 0.75)
+    F2 = cm(mdim, n)
+    B2 = F2.conj().T.copy() if adjoint_pair else cm(n, mdim)
+    lyot.prop = _LinearProp(F2, B2, pg, fg)
+    fx = np.asarray(lyot.forward(hp.Wavefront(hp.Field(E.copy(), pg), wl)).electric_field)
+    by = np.asarray(lyot.backward(hp.Wavefront(hp.Field(Y.copy(), pg), wl)).electric_field)
+    lhs, rhs = complex(np.vdot(Y, fx)), complex(np.vdot(by, E))
+    s4 = max(1.0, abs(lhs), abs(rhs))
+    if adjoint_pair and abs(lhs - rhs) > TOL * s4:
+        bad.append(('lyot backward-adjoint', '<y, forward x> = %r but <backward y, x> = %r with a propagator pair B = F^H' % (lhs, rhs)))
+    adj = {'line': 'C09 lyotadj %s %s %s %s %s %s' % (cmx(F2), cmx(B2), cl(mask), '- -' if stop is None else cl(stop), cl(E), cl(Y)),
+           'lhs': lhs, 'rhs': rhs, 'pair': adjoint_pair, 'scale': s4}
+    return {'lines': lines, 'outs': [o_l, o_o, b_l, b_o], 'scale': max(s2, s3), 'adj': adj}, bad
 
 
 def part_c(ctx):
@@ -685,16 +726,37 @@ def part_c(ctx):
                  ('C', nx, ny, case['q'], case['num_airy'], case['stop_kind'], case['mask_elem']))
         if obs is not None:
             plan.append((case, obs, len(lines)))
-            lines += obs['lines']
+            lines += obs['lines'] + [obs['adj']['line']]
     out = ctx.model(lines)
     for case, obs, base in plan:
-        for k in range(2):
+        short = {k2: case[k2] for k2 in ('dims', 'q', 'num_airy', 'stop_kind', 'seed')}
+        for k in range(4):
             toks = out[base + k].split()
+            if toks[0] != 'ok':
+                raise MachineryError('model refused a Lyot request: %s' % out[base + k][:80])
             ref = np.array([float(v) for v in parse_rat_list(toks[1])]) + 1j * np.array([float(v) for v in parse_rat_list(toks[2])])
             ctx.traces_validated += 1
             if np.abs(ref - obs['outs'][k]).max() > TOL * obs['scale']:
-                ctx.disagree('C09 ' + ('lyot', 'occulted')[k], {'case': {k2: case[k2] for k2 in ('dims', 'q', 'num_airy', 'stop_kind', 'seed')},
-                                                                 'max_abs_diff': float(np.abs(ref - obs['outs'][k]).max())})
+                ctx.disagree('C09 ' + ('lyot', 'occulted', 'lyot backward', 'occulted backward')[k], {'case': short, 'max_abs_diff': float(np.abs(ref - obs['outs'][k]).max())})
+        # lyot_backward_adjoint: hypothesis and conclusion evaluated by the model, conclusion compared with the real methods
+        a = obs['adj']
+        toks = out[base + 4].split()
+        if toks[0] != 'ok':
+            raise MachineryError('model refused lyotadj: %s' % out[base + 4][:80])
+        m = dict(t.split('=') for t in toks[1:])
+
+        def c1(t):
+            re_, im_ = t.split(',')
+            return complex(float(Fraction(re_)), float(Fraction(im_)))
+        ctx.traces_validated += 1
+        hyp = Fraction(m['adj']) == 0
+        ctx.count('C:adjoint-pair' if hyp else 'C:non-adjoint-pair:' + ('unequal' if m['lhs'] != m['rhs'] else 'equal'))
+        if hyp != a['pair']:
+            ctx.disagree('C09 lyot adjoint', {'case': short, 'what': 'hypothesis B = F^H: model %s, generator %s' % (hyp, a['pair'])})
+        elif hyp and m['lhs'] != m['rhs']:
+            ctx.disagree('C09 lyot adjoint', {'case': short, 'what': 'hypothesis holds but the model sides differ', 'model': [m['lhs'], m['rhs']]})
+        elif abs(c1(m['lhs']) - a['lhs']) > TOL * a['scale'] or abs(c1(m['rhs']) - a['rhs']) > TOL * a['scale']:
+            ctx.disagree('C09 lyot adjoint', {'case': short, 'model': [m['lhs'], m['rhs']], 'impl': [repr(a['lhs']), repr(a['rhs'])]})
 
 
 # =============================================================================================
